@@ -10,7 +10,7 @@ EXPLANATION = ('Structural necessary conditions of C08: on_cancel_tasks releases
                'worker and forgets the task and its recursive consumers; a queue-resident state must be dequeued when left (R08.2); '
                'cancel_job is core-first, await-free and idempotent; the worker CancelTasks handler covers every container that can hold a task.')
 NOT_DECIDED = ['that the worker actually stops the process (OS behaviour)', 'global ordering of late messages (R01.2 covers the unknown-id path)']
-RELATED = {'C01': ['R01.2', 'R01.6~handle_task_with_signals'], 'C05': ['R05.5']}
+RELATED = {'C01': ['R01.2', 'R01.6~handle_task_with_signals'], 'C05': ['R05.5'], 'C10': ['R10.3~Cancel', 'R10.9~^(TasksCanceled|JobCancel)']}
 ASSUMPTIONS = ['per-connection FIFO']
 
 OPTION = 'core::option::Option'
@@ -181,6 +181,30 @@ def run(ctx):
                 bulk.append((bb_, bi_, c_))
     ctx.ob('R08.4', 'cancel_task|removes only the canceled task', not bulk,
            f'cancel_task removes the canceled id with an id predicate (retain / remove(pos)); a range or bulk removal ({[c_.split("::")[-1] for b_, i_, c_ in bulk]}) also drops other pre-sent tasks, which the server still holds as Prefilled on this worker and which then never start', bulk[0][0].loc(bulk[0][1]) if bulk else ct.loc())
+    # a retain on the backlog MAP (whole per-request lists) may only drop lists that became empty: its closure returns
+    # !is_empty(); returning is_empty() keeps the empty lists and throws away every other pre-sent task
+    for bp_ in sorted(bodies):
+        bb_ = prog.bodies[bp_]
+        for bi_, t_, c_ in bb_.calls():
+            if bi_ in bb_.reachable() and (c_ or '').endswith(('HashMap::retain', 'Map::retain', 'BTreeMap::retain')):
+                cl_ = None
+                for a_ in t_['args'][1:]:
+                    for x_ in (bb_.derived_from(op_local(a_), through_mutation=False) if op_local(a_) is not None else ()):
+                        for d_ in bb_.defs().get(x_, ()):
+                            if d_[1] == 'a' and d_[2]['rv'][0] == 'agg' and d_[2]['rv'][1][0] == 'closure':
+                                cl_ = prog.bodies.get(norm(d_[2]['rv'][1][1]))
+                okp = True
+                if cl_ is not None:
+                    ie = [x for x in cl_.call_blocks(lambda c: c.endswith('::is_empty'))]
+                    for x in ie:
+                        dl = cl_.term[x]['d'][0]
+                        if cl_.term[x]['d'] == [0, []]:
+                            okp = False
+                        for y in cl_.reachable():
+                            for st in cl_.stmts(y):
+                                if st['k'] == 'a' and st['p'] == [0, []] and st['rv'][0] == 'use' and op_local(st['rv'][1]) == dl:
+                                    okp = False
+                ctx.ob('R08.4', 'cancel_task|map retain keeps non-empty lists', okp, 'a retain over the backlog map keeps a list iff it is NOT empty (never the other way round)', bb_.loc(bi_))
     pwm = prog.body(T + 'worker::rpc::process_worker_message')
     TWM = T + 'messages::worker::ToWorkerMessage'
     cc = pwm.call_blocks(ct.path)
